@@ -129,11 +129,10 @@ class Trend(BaseGridder):
 
         """
         coordinates, data, weights = check_fit_input(coordinates, data, weights)
-        easting, northing = n_1d_arrays(coordinates, 2)
+        easting, northing = n_1d_arrays(coordinates, 2, floating=True)
         self.region_ = get_region((easting, northing))
-        jac = self.jacobian(
-            (easting, northing), dtype=np.result_type(data.dtype, np.float32)
-        )
+        dtype = data.dtype if data.dtype.kind == "f" else "float64"
+        jac = self.jacobian((easting, northing), dtype=dtype)
         self.coef_ = least_squares(jac, data, weights, damping=None)
         return self
 
@@ -158,9 +157,9 @@ class Trend(BaseGridder):
 
         """
         check_is_fitted(self, ["coef_"])
-        easting, northing = n_1d_arrays(coordinates, 2)
+        easting, northing = n_1d_arrays(coordinates, 2, floating=True)
         shape = np.broadcast(*coordinates[:2]).shape
-        data = np.zeros(easting.size, dtype=np.result_type(easting.dtype, np.float32))
+        data = np.zeros(easting.size, dtype=easting.dtype)
         combinations = polynomial_power_combinations(self.degree)
         for coef, (i, j) in zip(self.coef_, combinations):
             data += (easting**i) * (northing**j) * coef
@@ -208,7 +207,7 @@ class Trend(BaseGridder):
          [ 1  4 -1 16 -4  1]]
 
         """
-        easting, northing = n_1d_arrays(coordinates, 2)
+        easting, northing = n_1d_arrays(coordinates, 2, floating=True)
         if easting.shape != northing.shape:
             raise ValueError("Coordinate arrays must have the same shape.")
         combinations = polynomial_power_combinations(self.degree)
